@@ -281,7 +281,23 @@ def _extent(repo, rep):
                   "shortens it: the reported excerpt is cut)",
                   construct="decoded-before-ref:" + what,
                   where=L.where(f, n.lineno), detail=src(n)[:90])
-    rep.require_min("R12.2b", 2, "statement values and ${} candidates")
+    # same kind, other step: ';;' is un-doubled in every part that
+    # split_parts returns -- each escape makes the part one character shorter
+    # than its extent in the source, and the excerpt is cut by that much
+    sp = repo.func("chameleon.tal.split_parts")
+    shortens = [n for n in ast.walk(sp.node) if isinstance(n, ast.Call)
+                and isinstance(n.func, ast.Attribute)
+                and n.func.attr == "replace" and len(n.args) == 2
+                and all(isinstance(a, ast.Constant) for a in n.args)
+                and isinstance(n.args[0].value, str)
+                and len(n.args[0].value) != len(n.args[1].value)]
+    rep.check(not shortens, "R12.2b", sp.qualname, "the parts of a statement "
+              "keep their source extent (the ';;' escape is un-doubled "
+              "without shortening the text a reference is made from)",
+              construct="unescaped-before-ref:split-parts",
+              where=L.where(sp, shortens[0].lineno if shortens else None),
+              detail=src(shortens[0])[:80] if shortens else "")
+    rep.require_min("R12.2b", 3, "statement values, ${} candidates, parts")
     # the file name reported in a frame is the constant __filename of the
     # compiled module: a module may be reused from the cache only for the
     # very same path
